@@ -165,7 +165,7 @@ InferExportName(ws, n) ==
   ELSE AliasNameOf(ws, n)
 
 ExportFaults(ws, name) ==
-  (IF name \in DOMAIN ws.g.exports THEN {"DuplicateExternName"} ELSE {})
+  (IF Taken(DOMAIN ws.g.exports, name) THEN {"DuplicateExternName"} ELSE {})
   \cup (IF name \notin ValidNames THEN {"InvalidExternName"} ELSE {})
   \* a type declared at the root is exported under its own name: no other export may take it
   \cup (IF name \in DOMAIN ws.env /\ ws.g.nodes[ws.env[name]].k = "def" THEN {"ExportConflict"} ELSE {})
@@ -207,7 +207,8 @@ Exec(ws, s) ==
                         IF ~IsInstance(Kind(r.ws, r.node)) THEN [faults |-> {"NotAnInstance"}, ws |-> ws]
                         ELSE
                           \* every export of the instance that does not conflict with a previous export
-                          LET todo == SeqOfSetW(DOMAIN Kind(r.ws, r.node).ex \ DOMAIN r.ws.g.exports)
+                          \* (names conflict up to ASCII case, see GraphAbs.SameName)
+                          LET todo == SeqOfSetW({x \in DOMAIN Kind(r.ws, r.node).ex : ~Taken(DOMAIN r.ws.g.exports, x)})
                               RECURSIVE X(_, _)
                               X(w, j) == IF j > Len(todo) THEN w
                                          ELSE LET a == AliasOf(w, r.node, todo[j])
